@@ -108,13 +108,66 @@ func c30root(ids []bc.Hash) bc.Hash {
 	return r
 }
 
+// proofs handed out earlier in the current case, kept ALIVE exactly as the API returned them
+// (pointers), with a copy of what they said when they were handed out (retention oracle)
+type c30held struct {
+	ptrs  []*bc.Hash
+	fptr  []uint8
+	hs    []bc.Hash
+	fs    []uint8
+	rel   []bc.Hash
+	root  bc.Hash
+	det   string
+	valid bool // rel was an ordered sub-list of distinct ids: the proof validated when handed out
+}
+
+var c30retained []*c30held
+
 func c30proof(ids, rel []bc.Hash) ([]bc.Hash, []uint8) {
 	hp, fs := types.GetTxMerkleTreeProof(c30txs(ids), c30txs(rel))
 	hs := make([]bc.Hash, len(hp))
 	for i, p := range hp {
 		hs[i] = *p
 	}
+	if len(c30retained) >= 24 {
+		c30retained = c30retained[1:]
+	}
+	c30retained = append(c30retained, &c30held{ptrs: hp, fptr: fs, hs: hs, fs: append([]uint8{}, fs...), rel: rel})
 	return hs, fs
+}
+
+// re-read every proof still held from earlier requests of this case: it must say what it said when
+// it was handed out (and still validate)
+func c30checkRetained(c *Ctx, except *c30held) {
+	for _, h := range c30retained {
+		if h == except || h.det == "" {
+			continue
+		}
+		changed := len(h.fptr) != len(h.fs)
+		now := make([]bc.Hash, len(h.ptrs))
+		for i, p := range h.ptrs {
+			now[i] = *p
+			if now[i] != h.hs[i] {
+				changed = true
+			}
+		}
+		for i := range h.fs {
+			if i < len(h.fptr) && h.fptr[i] != h.fs[i] {
+				changed = true
+			}
+		}
+		if changed {
+			c.Count("retained/changed")
+			if h.valid {
+				// the proof as it reads NOW no longer validates: a replayable line
+				c30val(c, now, h.fptr, h.rel, h.root, "true", "proof-changes-later", h.det)
+			}
+			c.Fail("proof-changes-later:"+h.det, fmt.Sprintf("a proof handed out earlier reads differently after later proofs were generated: was %s, now %s", c30list(h.hs), c30list(now)))
+			h.det = "" // report once
+		} else {
+			c.Count("retained/unchanged")
+		}
+	}
 }
 
 func c30validate(hs []bc.Hash, fs []uint8, rel []bc.Hash, root bc.Hash) (res bool, panicked string) {
@@ -134,6 +187,11 @@ func c30validate(hs []bc.Hash, fs []uint8, rel []bc.Hash, root bc.Hash) (res boo
 		rp[i] = &h
 	}
 	return types.ValidateTxMerkleTreeProof(hp, fs, rp, root), ""
+}
+
+func c30reset(c *Ctx) {
+	c30retained = nil
+	c.Op("reset", "ok")
 }
 
 // leaf hash of an id (= merkle root of the one-element list)
@@ -165,7 +223,10 @@ func c30ordered(ids, rel []bc.Hash) bool {
 // leaves (in order) and validates against the list's OWN root
 func c30proofOp(c *Ctx, ids, rel []bc.Hash, det string) ([]bc.Hash, []uint8) {
 	hs, fs := c30proof(ids, rel)
+	held := c30retained[len(c30retained)-1]
+	held.det, held.root, held.valid = det, c30root(ids), c30ordered(ids, rel)
 	c.Op(fmt.Sprintf("proof %s %s", c30list(ids), c30list(rel)), c30list(hs)+" "+c30flags(fs))
+	defer c30checkRetained(c, held)
 	if !c30ordered(ids, rel) {
 		return hs, fs
 	}
@@ -230,6 +291,7 @@ func c30exec(c *Ctx, line string) {
 	}
 	switch {
 	case w[0] == "reset":
+		c30retained = nil
 		c.Op(line, "ok")
 	case w[0] == "root" && len(w) >= 2:
 		ids, ok := c30parseList(w[1])
@@ -496,7 +558,7 @@ func c30random(c *Ctx, ids []bc.Hash) {
 // id (two competing blocks with the same coinbase) that differ in one or more other leaves, and
 // repeated requests for one list with different related sets
 func c30sequence(c *Ctx, n int) {
-	c.Op("reset", "ok")
+	c30reset(c)
 	base := c30ids(c, n)
 	variants := [][]bc.Hash{base}
 	for v := 0; v < 2+c.Rng.Intn(2); v++ {
@@ -626,7 +688,7 @@ func runC30(c *Ctx) {
 		c30sequence(c, 1+c.Rng.Intn(20))
 	}
 	for n := 0; n <= 64; n++ {
-		c.Op("reset", "ok")
+		c30reset(c)
 		ids := c30ids(c, n)
 		c.Op("root "+c30list(ids), c30hex(c30root(ids)))
 		mt := maxTamper
@@ -639,7 +701,7 @@ func runC30(c *Ctx) {
 	}
 	// random sizes, N cases
 	for i := 0; i < c.N; i++ {
-		c.Op("reset", "ok")
+		c30reset(c)
 		n := c.Rng.Intn(65)
 		if c.Rng.Intn(2) == 0 {
 			n = c.Rng.Intn(12)
